@@ -25,6 +25,9 @@ type c08Placement struct {
 	Body  []string // ... in the form body
 	Hdr   string   // X-Client-Secret (secrets only)
 	OK    bool     // the right value is presented somewhere
+	// Link: no secret anywhere, but the request carries what every visitor's browser sees in a sign-in
+	// link the proxy issued a moment ago (redirect_uri, sig, ts — signed with the client secret)
+	Link bool
 }
 
 func c08Run(c *fw.Ctx) {
@@ -47,6 +50,7 @@ func c08Run(c *fw.Ctx) {
 		{Name: "header-right", Hdr: sg, OK: true}, {Name: "header-wrong", Hdr: sb}, {Name: "query-right", Query: []string{sg}, OK: true},
 		{Name: "prefix-of-secret", Hdr: sg[:len(sg)-4]}, {Name: "secret-plus-suffix", Hdr: sg + "x"}, {Name: "empty", Body: []string{""}},
 		{Name: "body-wrong+header-right", Body: []string{sb}, Hdr: sg, OK: true},
+		{Name: "absent+parameters-of-a-fresh-sign-in-link", Link: true},
 	}
 	endpoints := []string{"redeem", "refresh", "profile", "validate"}
 	methods := []string{"GET", "POST", "PUT", "HEAD"}
@@ -90,6 +94,9 @@ func c08Run(c *fw.Ctx) {
 		// expired only just (whole-second deadlines; the virtual clock stands half a second past a second)
 		{"genuine-token-deadline-expired-1s-ago", func() string { return seal(mk(harness.At(-time.Second), future)) }, false},
 		{"genuine-lifetime-expired-4s-ago", func() string { return seal(mk(future, harness.At(-4*time.Second))) }, false},
+		// deadlines that do not fall on a whole second, passed a fraction of a second ago
+		{"genuine-token-deadline-expired-300ms-ago", func() string { return seal(mk(harness.At(-300*time.Millisecond), future)) }, false},
+		{"genuine-lifetime-expired-300ms-ago", func() string { return seal(mk(future, harness.At(-300*time.Millisecond))) }, false},
 	}
 
 	drive(c, "product", -1, func(x *explore.Exec, owned bool) {
@@ -131,6 +138,12 @@ func c08Run(c *fw.Ctx) {
 		}
 		if sec.Hdr != "" {
 			hdr.Set("X-Client-Secret", sec.Hdr)
+		}
+		if sec.Link {
+			uri, ts := "https://app.sso.test/oauth2/callback", harness.NowUnix()
+			q.Set("redirect_uri", uri)
+			q.Set("ts", fmt.Sprint(ts))
+			q.Set("sig", harness.Sign(uri, ts, harness.ClientSecret))
 		}
 		put := func(k, v string) {
 			if method == "GET" || method == "HEAD" {
